@@ -243,6 +243,16 @@ def trace_of(t, _stack=()):
             ops.append(("op", cur.args[1], cur.args[2]))
             cur = cur.args[0]
             continue
+        if cur.op == "field" and is_t(cur.args[0]) and cur.args[0].op == "phi":
+            # the transcript lives in a field of a (newtype) struct that is carried around a loop as a whole
+            nxt = field_of_join(cur)
+            if nxt is not cur:
+                cur = nxt
+                continue
+        if cur.op == "agg" and len(cur.args) == 2 and str(cur.args[0]).startswith("adt:") and is_t(cur.args[1]) and \
+                cur.args[1].op in ("sop", "strobe_new", "phi", "field", "agg"):
+            cur = cur.args[1]          # a private newtype around the Strobe state
+            continue
         if cur.op == "strobe_new":
             ops.append(("new", cur.args[0]))
             break
@@ -592,8 +602,26 @@ def whole_of(t, eng=None, ordered=False):
             x = pr[0][1][0][1]
             els = find_all(x, lambda z: z.op == "elem" and len(z.args) >= 2)
             sites = {z.args[1] for z in els}
+            if len(sites) > 1:
+                # elements of iterations made inside helper frames (a helper's own loop over the element) do not count:
+                # keep the iteration sites of the frame in which the vector is accumulated
+                ps_ = phi_site(eng, t.args[0])
+                own = {s_ for s_ in sites if ps_ is not None and isinstance(s_, str) and s_.rsplit("/", 1)[0] == ps_[0]}
+                if len(own) == 1:
+                    sites = own
             if len(sites) != 1:
-                return None
+                # the pushed value names the element only below a join (e.g. the accumulator of a helper's own loop):
+                # take the one iteration of the frame in which the vector is accumulated
+                ps = phi_site(eng, t.args[0])
+                its = [e["argv"][0] for e in calls(eng, "Iterator::next")
+                       if ps is not None and e["frame"] == ps[0] and e["argv"] and e["argv"][0] is not None] if not sites else []
+                its = list({z.id: z for z in its}.values())
+                if len(its) != 1:
+                    return None
+                t = its[0]
+                if first_src is not None:
+                    return None
+                continue
             site = sites.pop()
             its = [e["argv"][0] for e in calls(eng, "Iterator::next")
                    if e["argv"] and e["argv"][0] is not None and contains(e["argv"][0], lambda z: z.op == "iter" and site in z.args[2:])
